@@ -11,7 +11,7 @@ META = {
     "engine": "small",
     "technique": "TLA+ spec KeyStore model-checked with TLC (the fs design refines the map model); TLC's behaviours replayed step by step on MemStore and the fs Store (spec->impl conformance)",
     "text": "TLC enumerates every sequence of entry / vacant insert|drop / occupied get*|remove|drop / get / try_insert / remove / failing insert (wrapped key whose Serialize errors; at most one per behaviour) / reopen (open|clone) over 2 ids (plus root-directory removal at the tail) and checks that the fs design (files, open handle, file offset) refines the map model (Refines, DirIsMap, NothingLeftBehind, OccupiedIffInserted, ReadsReturnStored, GoneIsError). Every emitted behaviour is replayed through the public KeyStore/Entry API of both real stores; after every step result class, returned key, directory listing (exactly one file per occupied id + canary) and get() of every id are compared with the model, and at the end after dropping any open handle.",
-    "note": "Bounds: 2 ids; quick: TLC exhaustive at 5 calls, replay of every behaviour of <= 4 calls + seeded sample of 8000 5-call behaviours; thorough: every behaviour of <= 5 calls + seeded sample of 80000 6-call behaviours (TLC exhaustive at 6), VIEW-reduced design check at 9 calls x 3 ids, simulation to 10 calls x 3 ids. fs store on tmpfs (/dev/shm) plus a sample on the real disk under work/C45. One handle at a time, one thread (the Entry borrows the store); debug-assertion build (canary enabled).",
+    "note": "Bounds: 2 ids; quick: TLC exhaustive at 5 calls, replay of every behaviour of <= 4 calls + seeded sample of 8000 5-call behaviours; thorough: every behaviour of <= 5 calls replayed, TLC exhaustive at 6 calls (design level), VIEW-reduced design check at 9 calls x 3 ids, simulation to 10 calls x 3 ids. fs store on tmpfs (/dev/shm) plus a sample on the real disk under work/C45. One handle at a time, one thread (the Entry borrows the store); debug-assertion build (canary enabled).",
 }
 
 ACTIONS = ["Entry", "VInsert", "VInsertFail", "TryInsertFail", "VDrop", "OGet", "ORemove", "ODrop", "Get", "TryInsert", "Remove",
@@ -69,7 +69,8 @@ def run(ctx):
         rd = ctx.tlc("KeyStore", "MC_KeyStore_deep.cfg", timeout=3000)
         ctx.require_actions(rd, ACTIONS)
         rs = ctx.tlc("KeyStore", "MC_KeyStore_sim.cfg", simulate=3000, depth=12, timeout=900)
-        sets = [("all5", r5.replays, None), ("sample6", r6.replays, 80000), ("sim10", rs.replays, None)]
+        _ = r6  # 6 calls: design level only (exhaustive, nothing emitted)
+        sets = [("all5", r5.replays, None), ("sim10", rs.replays, None)]
         # the named deviations must violate the invariants (the spec's invariants are not vacuous)
         for cfg, invs in DESIGN_BUGS:
             rb = ctx.tlc("KeyStore", cfg, allow_violation=True, coverage=False, timeout=600)
